@@ -25,6 +25,8 @@ import (
 
 	"github.com/itchio/lake"
 	"github.com/itchio/lake/pools/fspool"
+	"github.com/itchio/lake/tlc"
+	"github.com/itchio/wharf/wsync"
 	"github.com/itchio/savior/seeksource"
 	"github.com/itchio/wharf/bsdiff"
 	"github.com/itchio/wharf/pwr"
@@ -48,6 +50,7 @@ type Scenario struct {
 	NewS       string   `json:"news,omitempty"`    // bsdiff: new string
 	OldSpec    string   `json:"oldspec,omitempty"` // bsdiff: old content spec (large inputs)
 	NewSpec    string   `json:"newspec,omitempty"`
+	BigSig     int      `json:"bigsig,omitempty"` // diff: synthetic old signature of this many blocks (contents A,B,C repeating)
 	Cap        int      `json:"cap,omitempty"` // scheduler variant: capacity replacing the scanner's 256-slot channels
 	Partitions int      `json:"partitions,omitempty"`
 	Conc       int      `json:"conc,omitempty"`
@@ -121,6 +124,26 @@ func prepare(sc Scenario, scratch string, seed int64) (*prepared, error) {
 	}
 	p.dr = dr
 	p.patch = dr.Patch
+	if sc.BigSig > 0 {
+		// a large old build exists only as its signature (the differ never reads old
+		// files): one file of BigSig blocks whose contents repeat A,B,C, so every block
+		// content occurs hundreds of times across the signature
+		sctx := wsync.NewContext(wh.B)
+		var protos []wsync.BlockHash
+		for _, l := range []string{"A", "B", "C"} {
+			weak, strong := sctx.HashBlock(wh.Content(l, seed))
+			protos = append(protos, wsync.BlockHash{WeakHash: weak, StrongHash: strong})
+		}
+		var hashes []wsync.BlockHash
+		for i := 0; i < sc.BigSig; i++ {
+			h := protos[i%3]
+			h.FileIndex, h.BlockIndex = 0, int64(i)
+			hashes = append(hashes, h)
+		}
+		size := int64(sc.BigSig) * wh.B
+		dr.Old = &tlc.Container{Size: size, Files: []*tlc.File{{Path: "big-old-file", Mode: 0o644, Size: size}}}
+		dr.OldHashes = hashes
+	}
 	return p, nil
 }
 
@@ -244,6 +267,9 @@ func scenarios(quick bool) []Scenario {
 		)
 	}
 	out = append(out, Scenario{Kind: "diff", Old: blkOld, New: blk, Comp: "none", Slicing: true, Bound: b(1, 2)})
+	// a large old signature with heavily duplicated block contents, new file at another path:
+	// which of the equal old blocks a range names must not depend on any schedule
+	out = append(out, Scenario{Kind: "diff", Old: wh.Build{}, New: wh.Build{wh.F("n", "C.A.B.=t")}, Comp: "none", BigSig: 2100, Bound: b(1, 2)})
 	// --- bsdiff scanner: 2-4 workers, 2-7 blocks
 	for _, c := range []struct {
 		o, n   string
